@@ -31,7 +31,8 @@ RULE += (
     "namedtuples, record classes, dict subclasses and nested containers (repr must stay bounded). 12% of the "
     "generated traceback frame lines sit below a path 18-110 directories deep and 15% of the code lines are "
     "239-5000 characters long; format_error must keep a 900-character message. 45% of the generated partial "
-    "boilerplate runs are directly followed by a complete run."
+    "boilerplate runs are directly followed by a complete run. format_error on an error carried through asynq "
+    "must show the plain caller's frame when a traceback is passed, and the tasks' frames always."
 )
 ASSUMPTIONS = ["pygments (used for highlighting) is trusted"]
 UNIT_TIMEOUT = {"quick": 240, "thorough": 2400}
